@@ -17,6 +17,8 @@ mod c19;
 mod goscope;
 mod c13;
 mod c16;
+mod c18;
+mod c14;
 mod probe;
 mod rng;
 mod sexp;
@@ -43,6 +45,8 @@ fn main() {
         "c19" => c19::main(&args),
         "c13" => c13::main(&args),
         "c16" => c16::main(&args),
+        "c18" => c18::main(&args),
+        "c14" => c14::main(&args),
         "probe" => probe::main(&args),
         other => {
             eprintln!("unknown subcommand {}", other);
